@@ -5,4 +5,10 @@ if ! /venv/bin/python -c 'import hypothesis' 2>/dev/null; then
     PIP_NO_INDEX=1 /venv/bin/pip install --no-index \
         --find-links /opt/veriftools/wheels hypothesis
 fi
+# atheris (coverage-guided supplement for C04/C09); optional
+if [ ! -d .deps/atheris ]; then
+    PIP_NO_INDEX=1 /venv/bin/pip install -q --no-index \
+        --find-links /opt/veriftools/wheels --target .deps atheris \
+        || echo "atheris not installed: the atheris parts will be skipped"
+fi
 /venv/bin/python -c 'import hypothesis, sys; sys.path.insert(0, "/repo"); import gemato; print("setup ok: hypothesis", hypothesis.__version__)'
